@@ -466,7 +466,8 @@ class PktGen:
                 f["move"] = {"kind": "aligned", "arg": ["const", d(st.sampled_from([2, 4, 8]))],
                              "ref": d(st.sampled_from(["innermost-pkt"] + (["begins"] if prof["begins"] else [])))}
             self.fields.append(f)
-        if prof["defaults"]:
+        if prof["defaults"] and (prof["defaults"] is True or chance(d, prof["defaults"])):
+            # declared defaults (True: always; a number: that fraction of the packets). They must never influence what unpack returns
             for f in self.fields:
                 if chance(d, 0.6):
                     self.add_default(f)
